@@ -15,6 +15,10 @@ def _ev(e, t, i=0, ok=False, cancelled=False, tasks=0):
     return {"e": e, "t": int(round(t * 1000)), "i": i, "ok": ok, "cancelled": cancelled, "tasks": tasks}
 
 
+class _Spin(BaseException):
+    """Raised out of the virtual loop when the code under test keeps it busy without letting time pass."""
+
+
 def run_scenario(outcomes, lifetimes, close_iter, cfg, horizon=30.0, tail=40.0, slow=3.0, runs=1, close_iter2=None, idle_close=False):
     """One execution of the real ConnectionManager. Events are recorded by harness-owned fakes only."""
     import han.meter_connection as mc
@@ -114,7 +118,16 @@ def run_scenario(outcomes, lifetimes, close_iter, cfg, horizon=30.0, tail=40.0, 
     run_no = [0]
     base_iter = [0]
 
+    spin = [0.0, 0]
+
     def hooked():
+        # no progress of virtual time over very many loop iterations = the code under test spins (never a property of a sleeping manager)
+        if loop.time() == spin[0]:
+            spin[1] += 1
+            if spin[1] > 200000:
+                raise _Spin()
+        else:
+            spin[0], spin[1] = loop.time(), 0
         if run_no[0] == 0 and close_iter is not None and loop.iterations == close_iter:
             do_close()
         if run_no[0] == 1 and close_iter2 is not None and loop.iterations == base_iter[0] + close_iter2:
@@ -151,11 +164,15 @@ def run_scenario(outcomes, lifetimes, close_iter, cfg, horizon=30.0, tail=40.0, 
     ret_iter = [0]
     try:
         loop.run_until_complete(main())
+    except _Spin:
+        err[0] = f"spin: 200000 loop iterations without progress of virtual time at t={loop.time()}"
+        ev.append(_ev("end", loop.time(), tasks=99))
     except RuntimeError as ex:  # virtual loop deadlock = nothing scheduled although main has not finished
         err[0] = "deadlock:" + str(ex)[:40]
         ev.append(_ev("end", loop.time(), tasks=99))
     finally:
         its = loop.iterations
+        loop._run_once = orig
         try:
             for t in asyncio.all_tasks(loop):
                 t.cancel()
@@ -210,6 +227,9 @@ def _long_job(args):
     elif pattern == "ok_loss":
         outcomes = ["ok"] * cycles
         lifetimes = [7] * cycles
+    elif pattern == "fail_run":         # one connection, then a long outage (every attempt fails), then reachable again
+        outcomes = ["ok"] + ["fail"] * cycles + ["ok", "fail", "ok"]
+        lifetimes = [2] * len(outcomes)
     else:
         outcomes = ["slowok", "fail", "fail"] * (cycles // 3 + 1)
         lifetimes = [6] * len(outcomes)
@@ -341,7 +361,8 @@ def run_c17(chk: Check) -> int:
     traces += restart_traces(chk, 60 if quick else 4000)
     cyc = [100, 1000] if quick else [100, 1000, 10000]
     with mp.Pool(8) as pool:
-        longs = pool.map(_long_job, [(c, p, CFGS[0]) for c in cyc for p in ("fail_ok_loss", "ok_loss", "mixed")])
+        longs = pool.map(_long_job, [(c, p, CFGS[0]) for c in cyc for p in ("fail_ok_loss", "ok_loss", "mixed")]
+                         + [(c, "fail_run", CFGS[k % 3]) for k, c in enumerate([40, 1100, 2100] if quick else [40, 1100, 2100, 5000, 20000])])
     traces += longs
     chk.cov["executions"] = nexec + len(longs)
     chk.cov["reconnect_cycles_max"] = max(cyc)
@@ -385,11 +406,14 @@ def backoff_trace(max_delay: int, ops: str) -> dict:
     init = b.current_delay_sec
     delays = []
     for o in ops:
-        if o == "f":
-            b.failure()
-        else:
-            b.reset()
-        delays.append(int(b.current_delay_sec))
+        try:
+            if o == "f":
+                b.failure()
+            else:
+                b.reset()
+            delays.append(int(b.current_delay_sec))
+        except Exception:  # noqa: BLE001 - an exception is an observation (no delay reported)
+            delays.append(-1)
     return {"id": stable_id("bo", max_delay, ops), "canary": "", "max_delay": max_delay, "init": int(init), "ops": list(ops), "delays": delays}
 
 
@@ -406,6 +430,8 @@ def run_c18(chk: Check) -> int:
         n = chk.rng.randint(1, 200)
         ops = "".join(chk.rng.choice("fffr") for _ in range(n))
         traces.append(backoff_trace(chk.rng.randint(1, 3600), ops))
+    for n in ((40, 1100) if quick else (40, 1100, 2100, 70000)):      # long outages: thousands of failures in a row, then a reset
+        traces.append(backoff_trace(60, "f" * n + "r" + "fff"))
     c = dict(traces[5])
     c["id"], c["canary"] = "canary-delay", "delay"
     c["delays"] = list(c["delays"])
